@@ -100,7 +100,11 @@ PROPS["C01"]["streams"] = [VALSET, CONSUMER, EPOCH]
 PROPS["C01"]["fields"] = r"^(diff|accum|cinit|applycc)\.|^cons\.(cc|pendch|cend|cinit)|^end\.(sent|valupd)|^c\d+\.(pend|valset)"
 PROPS["C01"]["rule"] += "; " + CONS_RULE
 
-NOT_APPLICABLE = {}
+NOT_APPLICABLE = {
+    "C07": "not claimed in this round: the harness does not yet construct real signed duplicate-vote evidence / conflicting headers; the technique applies (decision logic + frame), slice not built (DESIGN.md §10)",
+    "C16": "not claimed in this round: needs a Dec-exact model of the reward split/allocation path and scripted bank accounting; the technique applies (arithmetic conservation laws), slice not built (DESIGN.md §10)",
+    "C19": "not claimed in this round: failure-injection sweep and roll-back frame comparison not built; the technique applies (totality under invariant + roll-back frames), slice not built (DESIGN.md §10)",
+}
 
 LEVEL_TEXT = {
     "C08": "Theorems: double-sign never punishes; effects = jailPlan (exactly the validator owning the key, existing, not unbonded/tombstoned/jailed, consumer's own downtime parameters, mapped infraction height); acks when declined; unknown id => error ack; consumer keeps one outstanding report per validator and clears on ack. Tie: one-step correspondence incl. the calls made to staking/slashing + Spec.Slash on the implementation.",
